@@ -632,6 +632,9 @@ func (p c08) faultPhase(ctx *core.RunCtx, g *c08Gen, e *c08Entry, v ser, data []
 			k := ch.Draw("trunc-offset", L)
 			if ch.Bool("trunc-near-start") && L > 64 {
 				k = ch.Draw("trunc-head", 64)
+			} else if ch.Chance("trunc-near-end", 1, 4) {
+				// the last bytes: trailing optional members, final flags
+				k = L - 1 - ch.Draw("trunc-tail", minInt(L, 8))
 			}
 			kind := rdUnmarshal
 			if isStream {
@@ -1025,4 +1028,11 @@ func bystanderHash(m *rlwe.MetaData) uint64 {
 		h = core.SplitMix64(h ^ core.HashString(m.Scale.Mod.Text(16)))
 	}
 	return core.SplitMix64(h ^ uint64(m.LogDimensions.Rows)<<8 ^ uint64(m.LogDimensions.Cols))
+}
+
+func minInt(a, b int) int {
+	if a < b {
+		return a
+	}
+	return b
 }
